@@ -2644,9 +2644,12 @@ class Wallet(object):
             private_fields = []
             if not include_private:
                 private_fields += ['private', 'wif']
+            # Only export column values: relationships which happen to be loaded (multisig_children, wallet,
+            # transaction_inputs, ...) are live database objects and lead to other keys including private ones
+            column_fields = [c.key for c in DbKey.__table__.columns]
             for key in keys:
                 keys2.append({k: v for (k, v) in key.items()
-                              if k[:1] != '_' and k != 'wallet' and k not in private_fields})
+                              if k in column_fields and k not in private_fields})
             return keys2
         # qr.session.close()
         qr.session.commit()
